@@ -25,6 +25,7 @@ V = _V.create()
 Str = z3.StringSort()
 Int = z3.IntSort()
 Bool = z3.BoolSort()
+Real = z3.RealSort()
 SeqV = z3.SeqSort(V)
 SeqS = z3.SeqSort(Str)
 MapSV = z3.ArraySort(Str, V)
